@@ -54,3 +54,13 @@ register(
     undecided_clauses=[],
 )
 LEVEL_TEXT["C03"] = "in progress"
+
+register(
+    "C05",
+    modules=["contracts.c16", "contracts.node_getters", "contracts.node_decisions"],
+    level="proof",
+    explanation="clean decision guard, readiness predicates, sync request discipline",
+    trusted=[],
+    undecided_clauses=[],
+)
+LEVEL_TEXT["C05"] = "in progress"
